@@ -96,6 +96,7 @@ def run_property(prop, spec, tier, seed=0, tus=None, quiet=False):
     """spec: dict(rules=[...], floors={anchor: min}, level=..., explanation=..., assumptions=[...], static=[callables])"""
     t0 = time.time()
     _load_rules()
+    facts_mod.gc_cache()
     tus = tus if tus is not None else corpus_mod.corpus(tier)
     if spec.get('tu_filter'):
         tus = [t for t in tus if spec['tu_filter'](t)]
